@@ -34,6 +34,6 @@ with gzip.open(os.path.join(ROOT, rel), "wt") as g:
                                 "txs": [{"kind": t["kind"], "f": t["f"]} for t in j["txs"]]}) + "\n")
 os.remove(tmp)
 json.dump({"property": pid, "note": note, "recorded_from": {"mode": "hist", "seed": int(seed), "n": int(n), "env": env, "steps_kept": steps if upto is None else min(steps, upto)},
-           "runs": [{"mode": "histreplay", "seed": 0, "n": 0, "env": {"VERIF_REPLAY_FILE": rel}}]},
+           "runs": [dict({"mode": "histreplay", "seed": 0, "n": 0, "env": {"VERIF_REPLAY_FILE": rel}}, **({"driver": os.environ["VERIF_DRIVER"]} if os.environ.get("VERIF_DRIVER") else {}))]},
           open(os.path.join(ROOT, "corpus/%s-%s.json" % (pid, name)), "w"), indent=1)
 print("stored", rel, os.path.getsize(os.path.join(ROOT, rel)), "bytes")
